@@ -141,3 +141,37 @@ func cut(s string, n int) string {
 	}
 	return s
 }
+
+func dumpKinds(p *Program) {
+	l, _ := NewLayoutEngine(p)
+	ks, err := MarshalerKinds(p, l)
+	if err != nil {
+		fmt.Println(err)
+		return
+	}
+	for _, k := range ks {
+		fmt.Printf("%s sig=%s width=%d widths=%v read=%d open=%v unrel=%v nilpanics=%v alias=%v enczero=%s deczero=%v morder=%v uorder=%v detail=%s\n",
+			k.Name, k.Sig, k.Width, k.Widths, k.ReadExtent, k.ReadOpen, k.ReadUnrel, k.NilPanics, k.Alias, k.EncZeroImg, k.DecZeroSet, k.MOrder, k.UOrder, k.SigDetail)
+	}
+	for _, dir := range []string{"marshal", "unmarshal"} {
+		cf, err := walkCodec(p, l, dir)
+		if err != nil {
+			fmt.Println(err)
+			continue
+		}
+		fmt.Printf("== codec.%s paths=%d exploded=%v buf=%s offset=%s typevars=%v\n", dir, len(cf.Paths), cf.Exploded, cf.Buf, cut(cf.Offset, 40), cf.TypeVars)
+		for _, cp := range cf.Paths {
+			acc := []string{}
+			for _, a := range cp.Access {
+				acc = append(acc, fmt.Sprintf("%s[%d:%d abs=%v unrel=%v]", a.What, a.Lo, a.Hi, a.Abs, a.Unrel))
+			}
+			calls := []string{}
+			for _, c := range cp.Calls {
+				if strings.Contains(c.Name, "Endian") || strings.Contains(c.Name, "ParseUint") || strings.Contains(c.Name, "Set") || strings.Contains(c.Name, "marshal") || strings.Contains(c.Name, "invoke") {
+					calls = append(calls, cut(c.String(), 90))
+				}
+			}
+			fmt.Printf("   kind=%-20s val=%d errnil=%d out=%s acc=%v calls=%v\n", cp.Kind, cp.ValTag, cp.ErrNil, cp.Path.Outcome, acc, calls)
+		}
+	}
+}
